@@ -85,7 +85,6 @@ fn shrink_pipe_case(c: &PipeCase) -> Vec<PipeCase> {
 fn record_sched(c: &PipeCase, ctx: &mut Ctx) {
     ctx.sig.u64(c.sched.seed);
     ctx.sig.u64(c.sched.caps.iter().fold(7u64, |a, b| a.wrapping_mul(31).wrapping_add(*b as u64)));
-    ctx.sched = Some(crate::rng::mix3(c.sched.seed, c.sched.caps.len() as u64, c.t.trace.len() as u64));
     ctx.cfg("small_channel_capacity");
     if c.sched.caps.iter().any(|x| *x <= 2) {
         ctx.fired("small_channel_capacity");
